@@ -1,6 +1,6 @@
 PROPERTY = "C09"
 LEVEL = "proof"
-LEAN_MODULES = ["CifModel.Props.C09", "CifModel.Lemmas.NamesLink"]
+LEAN_MODULES = ["CifModel.Props.C09", "CifModel.Lemmas.NamesLink", "CifModel.Props.ReviewC09"]
 REQUIRED = ["CifModel.C09_idempotent", "CifModel.C09_canon_invariant", "CifModel.C09_normal_form_is_caseless_match",
             "CifModel.C09_norm_of_valid", "CifModel.C09_match_iff", "CifModel.C09_invalid_refused",
             "CifModel.C09_table_keys", "CifModel.C09_table_keys_case_significant", "CifModel.C09_validity",
